@@ -33,6 +33,7 @@ class QueueWorld:
         self.join_task = None
         self.join_called = False
         self.Z = False
+        self.more_joins = []  # further join() callers: [task, Z]
         self.in_block = set()
         self.cancelled_waiting = []
         for c in range(scen["consumers"]):
@@ -71,6 +72,12 @@ class QueueWorld:
         if self.join_task is not None and self.join_task.done() and not self.Z:
             self.v("join() returned although an item put before was not taken or its block had not exited",
                    self.puts, self.taken, self.exits, where)
+        for j in self.more_joins:
+            if self.puts == self.exits:
+                j[1] = True
+            if j[0].done() and not j[1]:
+                self.v("join() returned although an item put before was not taken or its block had not exited",
+                       self.puts, self.taken, self.exits, where, "further caller")
         if self.taken > self.puts:
             self.v("more items handed to blocks than were put", self.taken, self.puts)
         if len(set(self.items_seen)) != len(self.items_seen):
@@ -98,7 +105,7 @@ class QueueWorld:
         return (
             self.puts, self.put_started, sorted(self.producers.items()),
             self.taken, self.exits, sorted(self.gates.items()), tuple(self.pcs), len(self.viol),
-            self.join_called, self.Z, self.join_task, sorted(self.in_block),
+            self.join_called, self.Z, self.join_task, [(j[0], j[1]) for j in self.more_joins], sorted(self.in_block),
             sorted((c, t) for c, t in self.tasks.items()), tuple(self.items_seen),
         )
 
@@ -115,6 +122,11 @@ class QueueWorld:
         if self.idle() and self.join_task is not None and self.Z and not self.join_task.done():
             self.v("join() still waiting at idle although every item put had been taken and its block had exited",
                    self.puts, self.taken, self.exits)
+        if self.idle():
+            for j in self.more_joins:
+                if j[1] and not j[0].done():
+                    self.v("join() still waiting at idle although every item put had been taken and its block had exited",
+                           self.puts, self.taken, self.exits, "further caller")
         if self.idle() and self.puts > self.taken:
             waiting = sorted(c for c, t in self.tasks.items() if not t.done() and c not in self.in_block)
             if waiting:
@@ -179,6 +191,13 @@ class QueueWorld:
             self.producers[op[1]].cancel()
         elif op[0] == "cancel":
             self.tasks[op[1]].cancel()
+        elif op[0] == "join" and self.join_task is not None:
+            # a further caller of join() while the first one may still be waiting
+            j = [None, self.puts == self.exits]
+            j[0] = asyncio.Task(self.q.join(), loop=self.loop, eager_start=True, name=f"join{len(self.more_joins) + 2}")
+            self.loop.tasks.append(j[0])
+            self.more_joins.append(j)
+            self.sample("after_join_call")
         elif op[0] == "join":
             self.join_called = True
             self.sample("join_call")
